@@ -202,4 +202,13 @@ def main():
 
 
 if __name__ == '__main__':
-    sys.exit(main())
+    try:
+        rc = main()
+        sys.stdout.flush()
+    except BrokenPipeError:
+        rc = 1
+        try:
+            sys.stdout = open(os.devnull, 'w')
+        except Exception:
+            pass
+    sys.exit(rc)
